@@ -14,3 +14,10 @@ package helpers
 //@ func NewMap
 //@ ensures shape: result.helpers == helpers && result.moot != nil
 //@ assigns fresh
+
+// C14: the helpers are handed out as a copy taken under the lock - ranging over the result (every
+// context construction does) cannot race with Add
+//@ func (h HelperMap) All
+//@ ensures copy: result != nil && fresh(result) && (forall k string :: has(result, k) ==> h.helpers != nil && has(h.helpers, k) && result[k] == h.helpers[k])
+//@ assigns fresh
+//@ loop 1: invariant m != nil && fresh(m) && (forall k string :: has(m, k) ==> h.helpers != nil && has(h.helpers, k) && m[k] == h.helpers[k])
